@@ -138,7 +138,7 @@ def _compute_headers(cols, col_indices):
 	all_sanitized = []
 	seen = set()
 	for idx, col in enumerate(cols):
-		if col._name:
+		if col._name is not None:   # (a label such as 0 or False is a name, as for Table's own map)
 			san = _sanitize_user_name(col._name)
 			if san is None:
 				san = f"col{idx}_"
